@@ -24,7 +24,7 @@ ASSUMPTIONS = [
     "a call is REQUIRED when an exposed attribute of the entity has no admissible value in common before and after the frame; FORBIDDEN when every record of the frame is byte-identical to the entity's previous report, after unsubscribe, with a foreign identifier, and for AC state-only subscribers on zone-only frames; everything else MAY notify",
     "how many times a required call is made for one frame is not constrained (a zone change reaches the AC's subscribers once per zone)",
 ]
-PROBES = ["c12.awaiting_subscriber_finished", "c12.unsubscribe_during_held_up_update", "c12.change_inside_callback", "c12.identical_repeat", "c12.required_call", "c12.unsubscribed", "c12.raising", "c12.twin", "c12.state_only_zone_frame", "c12.unexposed_change", "c12.version"]
+PROBES = ["c12.observed_change", "c12.awaiting_subscriber_finished", "c12.unsubscribe_during_held_up_update", "c12.change_inside_callback", "c12.identical_repeat", "c12.required_call", "c12.unsubscribed", "c12.raising", "c12.twin", "c12.state_only_zone_frame", "c12.unexposed_change", "c12.version"]
 
 
 def budget(tier: str) -> int:
@@ -133,6 +133,14 @@ def generate(rng, index: int, tier: str) -> dict:
             if rng.random() < 0.5:
                 tl.append({"at": b + 2.0**-5, "op": "user.subscribe", "name": f"ac{ac}late", "target": ["ac", ac], "method": "subscribe"})
             tl.append({"at": b + 0.125, "op": "net.stall", "on": False})
+    if rng.random() < 0.2 and not any(st["op"] == "net.stall" for st in tl):
+        # a console that takes its time to answer: the description of an error arrives well after the status frame that made the
+        # client ask for it (in another interval between two looks at the object model)
+        tl.append({"at": 5.75, "op": "console.script", "kind": "error_info_request", "actions": [["late", 0.625]] * 60})
+    # what the object model shows between the console's frames (for the rule "an exposed attribute changed => its subscribers
+    # were told", which needs no reference model at all)
+    for k in range(-1, n + 1):
+        tl.append({"at": 6.0 + 0.5 * k + 0.46875, "op": "user.snapshot", "label": "obs"})
     tl.sort(key=lambda s: s["at"])
     return {"gen": gen, "mode": "api", "installation": inst, "knobs": knobs, "timeline": tl, "end": 6.0 + 0.5 * n + 1.0}
 
@@ -261,6 +269,58 @@ def execute(sc: dict) -> dict:
                 calls_outside.append((f["k"], seq))
     if calls_outside:
         V.append(viol("C12.call_without_frame", {"calls": calls_outside[:5]}))
+    # observed changes: between two looks at the object model with console frames in between, an entity whose exposed attributes
+    # differ must have told every subscriber that was subscribed to it for the whole interval (no reference model involved)
+    obs = [(snap["_seq"], t_, snap) for (t_, lbl, snap) in w.snapshots if lbl == "obs" and snap["_seq"] > seq_init]
+    sub_events = [(e[0], e[3]["k"]) for e in events if e[2] == "user.subscribe"]
+    call_events = [(e[0], e[3]["k"]) for e in events if e[2] == "sub.call"]
+    cancelled_any = any(e[2] == "sub.cancelled" for e in events)
+    roles: dict[str, set] = {}
+    timeline_subs = sorted((e[0], e[3]["k"], e[3]["m"], tuple(e[3]["target"])) for e in events if e[2] == "user.subscribe")
+    def roles_at(seq):
+        st: dict[str, set] = {}
+        for (sq, nm, meth, tgt) in timeline_subs:
+            if sq > seq:
+                break
+            cur = st.setdefault(nm, set())
+            if meth == "subscribe":
+                cur.add((tgt, "general"))
+            elif meth == "subscribe_ac_state":
+                cur.add((tgt, "state"))
+            elif meth == "unsubscribe":
+                cur.discard((tgt, "general"))
+            elif meth == "unsubscribe_ac_state":
+                cur.discard((tgt, "state"))
+        return st
+    for (sa, ta, A), (sb, tb, B) in zip(obs, obs[1:]):
+        if V or cancelled_any:
+            break
+        if any(a_ <= tb + 0.5 and ta - 0.5 <= b_ for (a_, b_) in stalls):
+            continue  # notifications may be held up by flow control across these looks
+        ch_ac = {ac for ac in A["acs"] if ac in B["acs"] and {k: v for k, v in A["acs"][ac].items() if k != "zones"} != {k: v for k, v in B["acs"][ac].items() if k != "zones"}}
+        ch_zone = {z for z in A["zones"] if z in B["zones"] and A["zones"][z] != B["zones"][z]}
+        if not ch_ac and not ch_zone:
+            continue
+        probes["c12.observed_change"] = 1
+        st = roles_at(sa)
+        moved = {nm for (sq, nm) in sub_events if sa < sq <= sb}
+        called = {nm for (sq, nm) in call_events if sa < sq <= sb}
+        for nm, rs in sorted(st.items()):
+            if nm in moved or nm in called:
+                continue
+            for (tgt, role) in sorted(rs):
+                why = None
+                if tgt[0] == "ac" and tgt[1] in ch_ac:
+                    why = "ac %d changed" % tgt[1]
+                elif tgt[0] == "ac" and role == "general" and any(owner.get(z) == tgt[1] for z in ch_zone):
+                    why = "a zone of ac %d changed" % tgt[1]
+                elif tgt[0] == "zone" and tgt[1] in ch_zone:
+                    why = "zone %d changed" % tgt[1]
+                if why:
+                    V.append(viol("C12.missed_notification", {"sub": nm, "why": why + " (observed in the object model)", "between": [ta, tb], "called": sorted(called)}, observed=True))
+                    break
+            if V:
+                break
     # a subscriber that was called must be allowed to finish: being cancelled at an await of its own (because a sibling
     # raised, say) is "prevented from being called" in everything but name
     cancelled = [(e[1], e[3]["k"]) for e in events if e[2] == "sub.cancelled"]
